@@ -21,8 +21,8 @@ CHECKS = {
    note="That a re-registered source with pending messages wakes the loop, and that senders block on the bounded channel, are mio_extras/std behaviour; exactly-once transmission is C01. Counterexamples are confirmed on the real loop natively (scripted throttling scenario with real mio Poll, a user-space readiness stream and a channel opened while throttled), which also runs as validation in the thorough tier.",
    ref="DESIGN.md §4 C18"),
  'C05': dict(
-   text="Kernel-level bounded model checking from MIR of what releases callers when a connection dies: one iteration of the real poll loop with an abstract handler (the first error ends the loop at once and is returned unchanged; poll failure = FailedToPoll; empty batch beyond the configured timeout = ConnectionTimeout); IoLoop::thread_main / run_connection on every exit path with handshake and poll loop stubbed by arbitrary results, using the engine's drop model (every reply queue, consumer queue, listener, allocation reply and handshake-done sender is released, every request receiver dropped); handles probed after the I/O side is gone (queued error first, then EventLoopDropped, a blocked receive wakes, allocate_channel / set_blocked_tx likewise).",
-   note="Threads are not modelled: 'bounded time' is 'no blocking receive while a sender exists'; the error kinds themselves are decided in C06/C01/C17/C08/C07. Counterexamples are confirmed end to end by scripted brokers over loopback TCP (EOF, garbage, server close in flight and while idle, illegal method), which also run as validation in the thorough tier.",
+   text="Kernel-level bounded model checking from MIR of what releases callers when a connection dies: one iteration of the real poll loop with an abstract handler (the first error ends the loop at once and is returned unchanged; poll failure = FailedToPoll; empty batch beyond the configured timeout = ConnectionTimeout); IoLoop::thread_main / run_connection on every exit path with handshake and poll loop stubbed by arbitrary results, using the engine's drop model (every reply queue, consumer queue, listener, allocation reply and handshake-done sender is released, every request receiver dropped); handles probed after the I/O side is gone (queued error first, then EventLoopDropped, a blocked receive wakes, allocate_channel / set_blocked_tx likewise); detection of the death itself: one inductive step of the real read loop (EOF => UnexpectedSocketClose and I/O error => IoErrorReadingSocket whatever was read before in the same call), a readable event ending in EOF while the state is still Steady (sealed or not) => UnexpectedSocketClose, heartbeat expiry => MissedServerHeartbeats for every interval and elapsed time.",
+   note="Threads are not modelled: 'bounded time' is 'no blocking receive while a sender exists'; the remaining error kinds are decided in C06/C01/C17/C08/C07. Counterexamples are confirmed end to end by scripted brokers over loopback TCP (EOF, garbage, server close in flight and while idle, illegal method), which also run as validation in the thorough tier.",
    ref="DESIGN.md §4 C05"),
  'C02': dict(
    text="Bounded symbolic execution of the real publish path (Channel::basic_publish, ChannelHandle::send_content, IoLoopHandle send_content_header/body, OutputBuffer push + serialize, from MIR) with a body of symbolic 64-bit length, symbolic payload limit (frame_max-8 >= 4088 or unlimited), symbolic flags/strings: the messages handed to the I/O thread must be exactly Basic.Publish(ticket 0, exchange, routing key, mandatory, immediate as given), one header (class 60, body_size = len, the given properties) and body frames contiguous from offset 0, full except the last, never empty, never above the limit, summing to len, each alone in its message and on that channel; a second publish appends its own group after the first.",
